@@ -139,6 +139,7 @@ type Machine struct {
 	now      int64
 	wc       *WorkerCache
 	connClosed bool
+	initDepth  int
 	lastPkg  *ssa.Package
 	fcount   map[*fnInfo]int
 }
